@@ -218,7 +218,9 @@ def run(ck, only=None):
         odd_part(ck, only)
     if not only or only.get("rerun"):
         rerun_part(ck, only)
-    if only and (only.get("odd") or only.get("rerun")):
+    if not only or only.get("foreign"):
+        foreign_part(ck, only)
+    if only and (only.get("odd") or only.get("rerun") or only.get("foreign")):
         return
     ck.sample({"definition": f"{fns[7].storage} {fns[7].proto()} {{ ...fold arguments, store g_hash, derive result... }}", "variants": [v[0] for v in VARIANTS]})
     ck.extra["static_functions"] = len(fns)
@@ -304,6 +306,68 @@ def odd_part(ck, only=None):
             ck.violation(f"odd-type {name} row={rname} {verdict}", {"odd": name, "row": rname, "why": f"`{src.splitlines()[-1]}`: {why}"})
     ck.extra["odd_type_functions"] = len(jobs)
     ck.extra["odd_type_inputs_refused_with_an_error"] = refused
+
+
+FOREIGN_TARGETS = [("x86_64-apple-darwin", "_"), ("aarch64-apple-darwin", "_"), ("aarch64-unknown-linux-gnu", ""), ("i686-unknown-linux-gnu", ""), ("powerpc64-unknown-linux-gnu", "")]
+FOREIGN_H = ("#pragma once\nstruct P { int a; char b; };\nstatic inline int add(int x, int y) { return x + y; }\nstatic int twice(int x) { return 2 * x; }\n"
+             "static inline struct P mk(int a) { struct P p = { a, 1 }; return p; }\nstatic inline void sink(const struct P *p, double d) { (void)p; (void)d; }\nint external_fn(int);\n")
+
+
+def foreign_part(ck, only=None):
+    """Wrappers for OTHER target triples (object formats that decorate C symbols), nothing executed: for every target the wrapper
+    source is compiled by `clang --target=T -c`; every static function that has a binding must have exactly one external wrapper
+    symbol, and the symbol the binding refers to on T (its link_name, literal after a 0x01 byte, otherwise with T's global
+    prefix) must be that symbol."""
+    wd = os.path.join(ck.wd, "foreign")
+    os.makedirs(wd, exist_ok=True)
+    statics = ["add", "twice", "mk", "sink"]
+
+    def one(job):
+        (t, prefix), suffix = job
+        d = os.path.join(wd, f"{t}_{'suf' if suffix else 'def'}")
+        os.makedirs(d, exist_ok=True)
+        hp = os.path.join(d, "fw.h")
+        open(hp, "w").write(FOREIGN_H)
+        w = os.path.join(d, "w")
+        r = common.run_jobs([{"id": "x", "args": [hp, "--experimental", "--wrap-static-fns", "--wrap-static-fns-path", w, "--no-layout-tests", "--formatter", "none"]
+                              + (["--wrap-static-fns-suffix", suffix] if suffix else []) + ["--", f"--target={t}"], "inventory": True}], d, threads=1)["x"]
+        if r["status"] != "ok":
+            return job, "generation-failed", str(r)[:200]
+        suf = suffix or "__extern"
+        refs = {}
+        for it in r["inventory"]["items"]:
+            if it["kind"] == "foreign_mod":
+                for fi in it["items"]:
+                    ln = fi.get("link_name")
+                    refs[fi["name"]] = ln[1:] if ln and ln.startswith("\x01") else prefix + (ln or fi["name"])
+        bound = [f for f in statics if f in refs]
+        if not os.path.exists(w + ".c"):
+            return job, ("dangling" if bound else "no-bindings"), f"bindings declare {bound} but no wrapper source was written"
+        rc, _, err = common.clang(["-std=gnu11", "-w", f"--target={t}", "-c", w + ".c", "-o", os.path.join(d, "w.o")], cwd=d)
+        if rc != 0:
+            return job, "wrapper-does-not-compile", err[:200]
+        nm = common.sh(["llvm-nm", "--defined-only", "-g", os.path.join(d, "w.o")]).stdout.decode()
+        defined = {l.split()[-1] for l in nm.splitlines() if l.strip()}
+        probs = []
+        for f in statics:
+            want = prefix + f + suf
+            if f not in refs:
+                probs.append(f"static function {f} has no binding")
+            elif refs[f] != want:
+                probs.append(f"binding of {f} refers to `{refs[f]}` on {t}; its wrapper is `{want}`")
+            if want not in defined:
+                probs.append(f"wrapper symbol `{want}` is not defined by the wrapper object (defined: {sorted(defined)})")
+        if refs.get("external_fn") != prefix + "external_fn":
+            probs.append(f"external_fn refers to `{refs.get('external_fn')}`")
+        return job, ("mismatch" if probs else "ok"), "; ".join(probs)[:600]
+
+    jobs = [(tp, suf) for tp in FOREIGN_TARGETS for suf in (None, "_w") if not only or only.get("foreign") == f"{tp[0]}|{suf}"]
+    for ((t, prefix), suf), verdict, why in common.pmap(one, jobs, threads=4):
+        ck.count()
+        ck.nontriv(("foreign", t, suf))
+        if verdict != "ok":
+            ck.violation(f"foreign-target {t} suffix={suf} {verdict}", {"foreign": f"{t}|{suf}", "why": why})
+    ck.extra["foreign_target_wrapper_runs"] = len(jobs)
 
 
 def rerun_part(ck, only=None):
